@@ -17,6 +17,7 @@ import json
 import os
 
 from analysis import rule
+from analysis.inline import expand as inline_expand
 from analysis.guards import GuardAnalysis
 from analysis.terms import TermBuilder, show, path_str, strip_refs, strip_casts, subterms
 from analysis.query import (call_sites, callee_is, mut_uses_of_field, stmts, has_field, constructions,
@@ -72,7 +73,8 @@ def check(ctx):
         per_fn.setdefault(u["fn"].name, []).append(u)
     nstores = 0
     for fname, us in sorted(per_fn.items()):
-        f = us[0]["fn"]
+        # a decision table split off into a private single-call-site helper is read as part of the storing function
+        f = inline_expand(P, us[0]["fn"])
         ctx.analysed_fns.add(f.name)
         g = GuardAnalysis(f, P, mem_kill=True)
         n = 0
